@@ -43,6 +43,7 @@ class Proto:
         self.rec: Any = None
         self.rname = ""
         self.wcount = 0
+        self.big = rng.random() < 0.25      # some sessions write a dataset of more than 1 MiB now and then
         self.merged: List[Dict[str, Any]] = []   # merge targets: name, patch index at merge time
 
     def handle(self) -> Dict[str, Any]:
@@ -114,7 +115,7 @@ class Proto:
             done = 0
             view = h5lib.project(r, self.km, self.tk)["view"]
             for _ in range(8):
-                e = h5lib.gen_op(self.rng, view, depth=3, values=["v1", "v2", "v3", "v4"])
+                e = h5lib.gen_op(self.rng, view, depth=3, values=["v1", "v2", "v3", "v4"] + (["vbig"] if self.big else []))
                 try:
                     h5lib.apply_op(r, e, self.km, self.tk.pool)
                     done += 1
